@@ -115,13 +115,17 @@ def tlc(pid, family, module, cfg=None, *, workers=None, simulate=None, depth=Non
     r.dir = d
     t0 = time.time()
     outp = os.path.join(d, module + "." + os.path.splitext(os.path.basename(cfg))[0] + ".out")
-    try:
-        with open(outp, "w") as fo:
-            p = subprocess.run(["timeout", "-s", "KILL", str(int(timeout)), *cmd], cwd=d, stdout=fo,
-                               stderr=subprocess.STDOUT, env=env)
-        r.rc = p.returncode
-    except Exception as e:  # pragma: no cover
-        raise Infra("cannot start TLC: %s" % e)
+    for attempt in range(3):
+        try:
+            with open(outp, "w") as fo:
+                p = subprocess.run(["timeout", "-s", "KILL", str(int(timeout)), *cmd], cwd=d, stdout=fo,
+                                   stderr=subprocess.STDOUT, env=env)
+            r.rc = p.returncode
+        except Exception as e:  # pragma: no cover
+            raise Infra("cannot start TLC: %s" % e)
+        if r.rc not in (143, -15, 130):   # killed by a foreign SIGTERM/SIGINT (shared machine): run it again
+            break
+        shutil.rmtree(meta, ignore_errors=True)
     r.wall = time.time() - t0
     with open(outp, errors="replace") as f:
         r.out = f.read()
